@@ -528,13 +528,56 @@ def _run_errmap(rep, fsdbh, tr, rng):
     return proof_ok
 
 
+def run_grpc_histories(rep, fsdbh):
+    """whole client histories: external client against an in-process server vs the inline client vs the model"""
+    from lib import histgen as G
+    from lib import histcheck as H
+    from lib import histprops as P
+    rng = C.rng_for(rep.seed, "c11h")
+    C.ensure_driver()
+    n = 40 if rep.tier == "quick" else 600
+    cases = P.corpus("c11_grpc.txt")
+    ncorpus = len(cases)
+    for i in range(n):
+        prof = rng.choice(["autocommit", "mixed", "conflict", "mixed"])
+        cases.append(G.gen_history(rng, "h%d" % i, profile=prof, probe_p=0.1, gc_p=0.03, late_p=rng.choice([0.0, 0.0, 0.2]),
+                                   nops=rng.choice([10, 20, 40]), nkeys=rng.randint(1, 3)))
+    # aborted uploads (source failure / caller cancellation) at boundary offsets, through both clients
+    for i in range(6 if rep.tier == "quick" else 60):
+        ln = rng.choice([10, 2049, 40000, 100000, 3000000])
+        at = rng.choice([0, 1, 2048, ln // 2, ln - 1])
+        how = rng.choice(["fail", "cancel"])
+        cases.append("\n".join(["case ab%d roots=1" % i, "keytab 6b31", "set 0 1 1 4 s",
+                                "setabort 0 1 %d %d %d %s" % (2 + i, ln, at, how), "get 0 1 g", "keys 0", "end"]))
+    grpc = H.run_sharded(fsdbh, "hist", cases, extra=["grpc"], shards=8)
+    inline = H.run_sharded(fsdbh, "hist", cases, extra=["inline"], shards=8)
+    model = [H.canon(c, o) for c, o in zip(cases, H.run_model("hist", cases))]
+    bad = 0
+    for c, g, i, m in zip(cases, grpc, inline, model):
+        if g != i or g != m:
+            bad += 1
+            if bad <= 3:
+                d = H.first_diff(g, i) if g != i else H.first_diff(g, m)
+                ops = [l for l in c.split("\n") if not l.startswith("keytab")]
+                rep.violation(dict(kind="oracle", what="the gRPC client answers differently from the inline client on the same "
+                                   "history (value or error class)", case=c, mode="grpc",
+                                   failing_step=ops[d] if d is not None and d < len(ops) else None,
+                                   grpc=g, inline=i, model=m))
+    rep.coverage.update(grpc_history_cases=len(cases), grpc_history_corpus=ncorpus, grpc_vs_inline_mismatches=bad,
+                        grpc_history_ops=sum(len(c.split("\n")) - 3 for c in cases),
+                        grpc_sample=dict(case=cases[ncorpus].split("\n")[:10], grpc=grpc[ncorpus][:9]))
+    rep.coverage["evaluations"] = rep.coverage.get("evaluations", 0) + len(cases)
+    rep.coverage["traces_validated_against_impl"] = rep.coverage.get("traces_validated_against_impl", 0) + 2 * len(cases)
+
+
 def run(rep):
     fsdbh = C.ensure_harness()
     run_errmap(rep, fsdbh)
-    # later sections (streaming, whole client histories) are added here
+    run_grpc_histories(rep, fsdbh)
     rep.assumptions = [
-        "this revision covers the error-class and isolation-level mapping only (DESIGN.md C11 part (a)); the streaming and "
-        "client-history parts of C11 are not yet checked",
+        "whole-history part: the same seeded histories (all four levels, transactions through metadata, all write forms, "
+        "contents across the 2048-byte chunk boundary, late operations, aborted uploads) run through external.Open against an "
+        "in-process server and through the inline client; values (content identity) and error classes must be equal and equal to the model",
         "error values are finite trees over the ten fs_db sentinels, foreign leaves, single-%w wrapping and errors.Join; custom "
         "error types with their own Is/Unwrap methods are outside the model",
         "the status travels intact (code + details) between Error and ClientError: modelled by marshalling and unmarshalling the "
